@@ -27,6 +27,9 @@ def mod_variants(pattern):
         if len(ps) >= 2:
             out.append(("+".join("psk%d" % k for k in ps), ps))
     out.append(("psk%d+psk%d" % (n, n + 1), (n, n + 1)))
+    for k in (10, 11, 99, 255):
+        out.append(("psk%d" % k, (k,)))
+        out.append(("psk0+psk%d" % k, (0, k)))
     out.append(("fallback", "fb"))
     out.append(("fallback+psk0", "fb"))
     out.append(("psk0+fallback", "fb"))
@@ -153,6 +156,11 @@ class CheckC12(core.Check):
                             kw["psks"] = {k: v for k, v in kw["psks"].items() if k != omit}
                         c.party(pid, "i" if ini else "r", name, rng="script:%d" % n, rec="-", **kw)
                     lb = (c.op("build", ids[0]), c.op("build", ids[1]))
+                    if n % 2 == 0:
+                        # a rejected set_psk (wrong key length / slot out of range) supplies nothing: the PSK is still missing
+                        bad = ids[0] if who == "i" else ids[1]
+                        c.op("set_psk", bad, loc=omit, key="gen:%d:bad" % [31, 33, 0, 64][n % 4])
+                        c.op("set_psk", bad, loc=10 + omit, key="gen:32:bad")
                     k_need = 0 if omit == 0 else omit - 1
                     ops = []
                     for k in range(nm):
